@@ -366,7 +366,9 @@ def handle (op : String) (args : List String) : Option String :=
     if startUnreadable start then pure "START-UNREADABLE" else
     let d ← startDoc start
     let (outs, dEnd) ← histRun d (if ops.isEmpty then [] else ops.splitOn ",")
-    pure s!"{encStr d.root.text}|{showHandles d} {" ".intercalate outs} {dump dEnd.root}"
+    -- joined like the harness (`outs.join(" ")` with the start state as first element): an empty
+    -- history prints ONE space between the start state and the dump
+    pure (" ".intercalate (s!"{encStr d.root.text}|{showHandles d}" :: outs ++ [dump dEnd.root]))
   | "deb.lossy", [t] => do
     let s ← decStr t
     pure (showLossy (Lossy.read s))
